@@ -1639,8 +1639,30 @@ def dot(a, b):
     return einsum('i,i->', a, b)
 
 
-def allclose(*a, **k):
-    unsupported('allclose')
+def _close_scalar(x, y, rtol, atol):
+    if _isinstance(x, (C, _py_complex)) or _isinstance(y, (C, _py_complex)):
+        return _close_scalar(_sc.re_part(x), _sc.re_part(y), rtol, atol) & _close_scalar(_sc.im_part(x), _sc.im_part(y), rtol, atol)     # (sufficient for the solver to see both sides)
+    t = atol + rtol * _py_abs(y)
+    d = x - y
+    return (d <= t) & (d >= -t)
+
+
+def isclose(a, b, rtol=1e-05, atol=1e-08, equal_nan=False):
+    aa, bb = _np.broadcast_arrays(a.a, b.a)
+    r = _np.empty(aa.shape, dtype=object)
+    for ix in _np.ndindex(*aa.shape):
+        r[ix] = _close_scalar(aa[ix], bb[ix], Fraction(rtol).limit_denominator(10**12), Fraction(atol).limit_denominator(10**12))
+    return Tensor(r, bool_)
+
+
+def allclose(a, b, rtol=1e-05, atol=1e-08, equal_nan=False):
+    if a.dtype is not b.dtype:
+        raise RuntimeError('%s did not match %s' % (a.dtype, b.dtype))
+    c = isclose(a, b, rtol, atol)
+    ok = True
+    for v in c.a.flat:
+        ok = ok & v
+    return _py_bool(ok)
 
 
 def isnan(t):
